@@ -415,6 +415,31 @@ def evalUse (posZero : Bool) (d : Doc) (u : UseExpr) (n : CNode) : UseResult :=
   | .one a => .str (evalSArg posZero d n a)
   | .concat as => .str (String.join (as.map (evalSArg posZero d n)))
 
+/-! ### names of XSLT objects (XSLT 1.0 §2.4) -/
+
+/-- in-scope namespace bindings at the point where a QName is written, outermost first (`("", uri)` = the default
+namespace declaration `xmlns="uri"`) -/
+abbrev NsContext := List (String × String)
+
+/-- `p=uri;q=uri2;=urn:d` (`-` = none) -/
+def parseNsContext (s : String) : NsContext :=
+  if s = "-" then [] else
+  (s.splitOn ";").filterMap fun b =>
+    match b.splitOn "=" with
+    | [p, u] => some (p, u)
+    | _ => none
+
+/-- The expanded name of an XSLT object (key, named template, mode, …) written as `lex`: a prefix is expanded with
+the innermost in-scope declaration of that prefix; **an unprefixed name has no namespace — the default namespace is
+not used** (§2.4).  Printed as `local` / `{uri}local`. -/
+def resolveObjectName (ctx : NsContext) (lex : String) : String :=
+  match lex.splitOn ":" with
+  | [p, l] =>
+    match ctx.reverse.find? fun b => b.1 = p with
+    | some b => "{" ++ b.2 ++ "}" ++ l
+    | none => "?unbound:" ++ lex
+  | _ => lex
+
 /-- a concrete `xsl:key`: expanded name + the two texts, closed over the documents so that it can serve
 as an abstract `KeyDecl` (a node knows its document, `CNode.doc`) -/
 def mkDecl (posZero : Bool) (docs : Nat → Doc) (name : String) (pat : List PathPat) (use : UseExpr) :
